@@ -1,6 +1,7 @@
 package rules
 
 import (
+	"sort"
 	"go/token"
 	"go/types"
 	"strings"
@@ -8,6 +9,7 @@ import (
 	"golang.org/x/tools/go/ssa"
 
 	"verif/internal/an"
+	"verif/internal/pipeline"
 )
 
 func init() {
@@ -17,9 +19,9 @@ func init() {
 		Run:     runC15,
 		Explanation: "Structure of the persisted-query binding, on every path of extension.AutomaticPersistedQuery: (add-guarded) every Cache[string].Add(ctx,k,v) is edge-dominated by computeQueryHash(v)==k over the same " +
 			"access paths with no store between guard and call, and computeQueryHash is hex(sha256(arg)); (mismatch-rejected) the != edge only reaches returns of a non-nil error; (lookup-only-when-empty) Cache.Get is " +
-			"called only on the Query==\"\" edge, RawParams.Query is assigned in the extension package only from Get's result, and the not-found edge only reaches non-nil error returns; (who-adds) no other " +
-			"gqlgen function calls Add on a Cache[string].",
-		NotDecided:  "cache implementations (interface, trusted: Get returns what Add stored for that key or not-found), eviction histories, the client-visible error text",
+			"called only on the Query==\"\" edge, RawParams.Query is assigned in the extension package only from Get's result, and the not-found edge only reaches non-nil error returns; (cache-key-identity) Get/Add of the Cache implementations shipped with gqlgen (MapCache, lru.LRU) index their store with the key parameter itself (or a conversion / constant concatenation of it), never with a lossy derivation; (who-adds) no " +
+			"gqlgen function outside the APQ extension calls Add on a Cache[string].",
+		NotDecided:  "user-supplied cache implementations and the backing stores themselves (hashicorp LRU, Go maps: trusted to return what was stored under that key or not-found), eviction histories, the client-visible error text",
 		Assumptions: []string{"graphql.Cache implementations honour the map contract", "crypto/sha256 and encoding/hex are correct"},
 	})
 }
@@ -316,6 +318,8 @@ func runC15(c *Ctx) {
 		}
 	}
 
+	c15CacheKeyIdentity(c)
+
 	c.R.Rule("who-adds", "Cache[string].Add is called (through the interface) only by methods of extension.AutomaticPersistedQuery (each such site is subject to add-guarded)", 1)
 	for _, fn := range fns {
 		for _, call := range an.CallsIn(fn, func(_ ssa.CallInstruction, ci an.CalleeInfo) bool { return isCacheStringMethod(ci.FullName(), "Add") }) {
@@ -372,4 +376,141 @@ func isHexSha256(fn *ssa.Function) (bool, string) {
 		}
 	}
 	return true, ""
+}
+
+// c15CacheKeyIdentity: the cache implementations shipped with gqlgen (graphql.MapCache, lru.LRU) file every entry under the
+// very key string they are given.  A hash-only APQ request must resolve to the text registered under *that* hash; a store that
+// indexes entries by a shorter digest of the key lets two different hashes share an entry.  Checked: in every method named Get
+// or Add with a `key string` parameter on a type of the runtime packages, each map index / map update / call into the backing
+// store uses a key that is the parameter itself, a conversion of it, or a concatenation of it with constants (provably
+// injective); any other derivation of the key is reported.
+func c15CacheKeyIdentity(c *Ctx) {
+	c.R.Rule("cache-key-identity", "Get/Add of the module's Cache implementations (MapCache, lru.LRU) index their store with the key parameter itself (or a conversion / constant concatenation of it), never with a lossy derivation of it", 3)
+	n := 0
+	// the generic method bodies themselves (Get/Add of named types declared in the runtime packages)
+	var methods []*ssa.Function
+	for _, tp := range c.W.All {
+		if tp.Types == nil || !pipeline.InModule(tp.PkgPath) || !isRuntimePkg(tp.PkgPath) {
+			continue
+		}
+		sc := tp.Types.Scope()
+		for _, name := range sc.Names() {
+			tn, ok := sc.Lookup(name).(*types.TypeName)
+			if !ok {
+				continue
+			}
+			named, ok := tn.Type().(*types.Named)
+			if !ok {
+				continue
+			}
+			for i := 0; i < named.NumMethods(); i++ {
+				m := named.Method(i)
+				if m.Name() != "Get" && m.Name() != "Add" {
+					continue
+				}
+				if f := c.W.Prog.FuncValue(m); f != nil && len(f.Blocks) > 0 {
+					methods = append(methods, f)
+				}
+			}
+		}
+	}
+	sort.Slice(methods, func(i, j int) bool { return methods[i].String() < methods[j].String() })
+	for _, fn := range methods {
+		var key *ssa.Parameter
+		for _, p := range fn.Params[1:] {
+			if bt, ok := p.Type().Underlying().(*types.Basic); ok && bt.Kind() == types.String && p.Name() == "key" {
+				key = p
+			}
+		}
+		if key == nil || len(fn.Params) < 3 || !strings.HasSuffix(fn.Params[1].Type().String(), "context.Context") {
+			continue
+		}
+		var injective func(v ssa.Value, depth int) bool
+		injective = func(v ssa.Value, depth int) bool {
+			if depth > 6 {
+				return false
+			}
+			switch x := an.Strip(v).(type) {
+			case *ssa.Parameter:
+				return x == key
+			case *ssa.Convert:
+				return injective(x.X, depth+1)
+			case *ssa.BinOp:
+				if x.Op != token.ADD {
+					return false
+				}
+				_, cx := x.X.(*ssa.Const)
+				_, cy := x.Y.(*ssa.Const)
+				return cx && injective(x.Y, depth+1) || cy && injective(x.X, depth+1)
+			case *ssa.UnOp:
+				if x.Op == token.MUL {
+					if d := an.SoleDef(x); d != nil && d != v {
+						return injective(d, depth+1)
+					}
+				}
+			}
+			return false
+		}
+		derivesFromKey := func(v ssa.Value) bool {
+			seen := map[ssa.Value]bool{}
+			var walk func(v ssa.Value) bool
+			walk = func(v ssa.Value) bool {
+				if v == nil || seen[v] {
+					return false
+				}
+				seen[v] = true
+				if v == ssa.Value(key) {
+					return true
+				}
+				if in, ok := v.(ssa.Instruction); ok {
+					for _, op := range in.Operands(nil) {
+						if *op != nil && walk(*op) {
+							return true
+						}
+					}
+				}
+				return false
+			}
+			return walk(v)
+		}
+		for _, b := range fn.Blocks {
+			for _, in := range b.Instrs {
+				var k ssa.Value
+				switch x := in.(type) {
+				case *ssa.Lookup:
+					if _, isMap := x.X.Type().Underlying().(*types.Map); isMap {
+						k = x.Index
+					}
+				case *ssa.MapUpdate:
+					k = x.Key
+				case *ssa.Call:
+					// a call into the backing store: the first argument that is derived from the key parameter
+					if x.Call.StaticCallee() != nil && pipelineInModule(x.Call.StaticCallee()) {
+						continue
+					}
+					for _, a := range x.Call.Args {
+						if derivesFromKey(a) {
+							if cv, isConv := an.Strip(a).(*ssa.MakeInterface); isConv {
+								a = cv.X
+							}
+							k = a
+							break
+						}
+					}
+				}
+				if k == nil || !derivesFromKey(k) {
+					continue
+				}
+				n++
+				c.R.Check(injective(k, 0), shortFn(fn)+"/store-key", c.ipos(in), "indexed by the key parameter itself", "the cache entry is filed under a value computed from the key ("+k.Name()+"), not under the key: two different keys (persisted-query hashes) can share an entry, so a hash resolves to text registered under another hash")
+			}
+		}
+	}
+	if n < 3 {
+		c.R.Fail("cache-key-identity examined only %d store accesses", n)
+	}
+}
+
+func pipelineInModule(f *ssa.Function) bool {
+	return f.Pkg != nil && strings.HasPrefix(f.Pkg.Pkg.Path(), modPath(""))
 }
